@@ -88,18 +88,40 @@ type prepared struct {
 	eIn    *big.Int
 	circ   *circuit.Circuit // mode circ
 	src    string           // mode stream
-	xArg   string
-	yArg   string
+	xArgs  []string
+	yArgs  []string
 }
 
-func argString(t argT, v *big.Int) string {
-	if t.Kind == "bool" {
-		if v.Sign() != 0 {
-			return "1"
-		}
-		return "0"
+// argStrings renders a party's input the way it is given on the command line
+// of apps/garbled: one string per scalar / array, one per struct member.
+func argStrings(t argT, v *big.Int) []string {
+	field := func(ofs, n int) *big.Int {
+		f := new(big.Int).Rsh(v, uint(ofs))
+		return f.And(f, new(big.Int).Sub(new(big.Int).Lsh(big.NewInt(1), uint(n)), big.NewInt(1)))
 	}
-	return "0x" + v.Text(16)
+	switch t.Kind {
+	case "bool":
+		if v.Sign() != 0 {
+			return []string{"1"}
+		}
+		return []string{"0"}
+	case "array":
+		// IOArg.Parse: the hex digits list the elements, element 0 first.
+		s := "0x"
+		for i := 0; i*t.Elem < t.Bits; i++ {
+			s += fmt.Sprintf("%0*x", t.Elem/4, field(i*t.Elem, t.Elem))
+		}
+		return []string{s}
+	case "struct":
+		var r []string
+		ofs := 0
+		for _, m := range t.Members {
+			r = append(r, "0x"+field(ofs, m).Text(16))
+			ofs += m
+		}
+		return r
+	}
+	return []string{"0x" + v.Text(16)}
 }
 
 func prepare(s Session) (*prepared, error) {
@@ -153,8 +175,8 @@ func prepare(s Session) (*prepared, error) {
 			}
 			return "uint"
 		}
-		xt = argT{kind(main.Params[0].T), s.Gen.Bits(main.Params[0].T)}
-		yt = argT{kind(main.Params[1].T), s.Gen.Bits(main.Params[1].T)}
+		xt = argT{Kind: kind(main.Params[0].T), Bits: s.Gen.Bits(main.Params[0].T)}
+		yt = argT{Kind: kind(main.Params[1].T), Bits: s.Gen.Bits(main.Params[1].T)}
 		p.nx, p.ny = xt.Bits, yt.Bits
 		if len(x) != p.nx || len(y) != p.ny {
 			return nil, fmt.Errorf("input width mismatch")
@@ -178,7 +200,7 @@ func prepare(s Session) (*prepared, error) {
 		return nil, fmt.Errorf("empty session")
 	}
 	if p.src != "" {
-		p.xArg, p.yArg = argString(xt, p.gIn), argString(yt, p.eIn)
+		p.xArgs, p.yArgs = argStrings(xt, p.gIn), argStrings(yt, p.eIn)
 		if s.Mode == "circ" {
 			key := s.Prog
 			if key == "" {
@@ -430,7 +452,7 @@ func execute(p *prepared, corr *Corruption, record bool) (*runResult, error) {
 		// As apps/garbled/streaming.go: the evaluator first announces the
 		// sizes of its inputs, the garbler compiles and streams.
 		gf = func() ([]*big.Int, error) {
-			gSizes, err := circuit.InputSizes([]string{p.xArg})
+			gSizes, err := circuit.InputSizes(p.xArgs)
 			if err != nil {
 				return nil, err
 			}
@@ -441,11 +463,11 @@ func execute(p *prepared, corr *Corruption, record bool) (*runResult, error) {
 			params := utils.NewParams()
 			params.Config = cfg
 			_, vals, err := compiler.New(params).Stream(gConn, gOT, "{data}",
-				strings.NewReader(p.src), []string{p.xArg}, [][]int{gSizes, sizes})
+				strings.NewReader(p.src), p.xArgs, [][]int{gSizes, sizes})
 			return vals, err
 		}
 		ef = func() ([]*big.Int, error) {
-			eSizes, err := circuit.InputSizes([]string{p.yArg})
+			eSizes, err := circuit.InputSizes(p.yArgs)
 			if err != nil {
 				return nil, err
 			}
@@ -455,7 +477,7 @@ func execute(p *prepared, corr *Corruption, record bool) (*runResult, error) {
 			if err := eConn.Flush(); err != nil {
 				return nil, err
 			}
-			_, vals, err := circuit.StreamEvaluator(eConn, eOT, []string{p.yArg}, nil, false)
+			_, vals, err := circuit.StreamEvaluator(eConn, eOT, p.yArgs, nil, false)
 			return vals, err
 		}
 	}
@@ -544,13 +566,16 @@ func (w *walker) data32(lenKind, kind string) []byte {
 	return w.take(n, kind)
 }
 
-func (w *walker) arg() {
-	w.data32("header-len", "header-text") // name
-	w.data32("header-len", "header-text") // type
-	w.u32("header-len")                   // bits
-	n := w.u32("header-len")
+// arg walks one argument description (sendArgument); pfx is "header" or, for
+// the evaluator's own argument, "evalarg" (the evaluator parses its input
+// with that description).
+func (w *walker) arg(pfx string) {
+	w.data32(pfx+"-len", pfx+"-text") // name
+	w.data32(pfx+"-len", pfx+"-text") // type
+	w.u32(pfx + "-len")               // bits
+	n := w.u32(pfx + "-len")
 	for i := 0; i < n && w.err == nil && i < 64; i++ {
-		w.arg()
+		w.arg(pfx)
 	}
 }
 
@@ -602,11 +627,11 @@ func layout(p *prepared, r *runResult) ([]Seg, error) {
 	case "stream":
 		ge.u32("key-len")
 		ge.take(32, "key")
-		ge.arg()
-		ge.arg()
+		ge.arg("header")
+		ge.arg("evalarg")
 		no := ge.u32("header-len")
 		for i := 0; i < no && ge.err == nil && i < 64; i++ {
-			ge.arg()
+			ge.arg("header")
 		}
 		ge.u32("header-len") // number of steps
 		ge.take(16*p.nx, "garbler-input-labels")
